@@ -123,5 +123,45 @@ func utf8Edges(t *testing.T) int {
 			}
 		}
 	}
+	// a long-lived reader: the invalid message is followed by control frames
+	// with a payload and by further messages, and the caller goes on after
+	// ErrInvalidUTF8 (control byte 0 = entry + 6: continue mode)
+	after := cat(
+		ref.Frame{H: ref.Header{Fin: true, Op: ref.OpPing}, Payload: []byte("0123456789")}.Encode(),
+		ref.Frame{H: ref.Header{Fin: true, Op: ref.OpPong}, Payload: []byte("abc")}.Encode(),
+		ref.Frame{H: ref.Header{Fin: true, Op: ref.OpText}, Payload: []byte("ok \xe2\x82\xac")}.Encode(),
+		ref.Frame{H: ref.Header{Op: ref.OpText}, Payload: []byte("fr")}.Encode(), ping,
+		ref.Frame{H: ref.Header{Fin: true, Op: ref.OpCont}, Payload: []byte("ag")}.Encode(),
+		ref.Frame{H: ref.Header{Fin: true, Op: ref.OpClose}, Payload: []byte("\x03\xe8bye")}.Encode())
+	contCtls := [][]byte{
+		{8, 0x01 | 4 | 0x80, 0x00, 0}, // top-level control frames through ControlFrameHandler
+		{8, 0x01 | 4, 0x00, 0},        // … read by the harness, 512-byte window
+		{8, 0x01 | 4, 0x10, 0},        // … 1-byte window
+		{8, 0x01 | 4, 0x20, 3},        // … 3-byte window, transport in 3-byte chunks
+		{8, 0x01 | 4, 0x01, 0},        // messages discarded
+	}
+	for si, size := range sizes {
+		if !hx.Mine(si) {
+			continue
+		}
+		for _, part := range partials[1:] {
+			first := append(bytes.Repeat([]byte{'a'}, size), part...)
+			heads := [][]byte{
+				ref.Frame{H: ref.Header{Fin: true, Op: ref.OpText}, Payload: first}.Encode(),
+				cat(ref.Frame{H: ref.Header{Op: ref.OpText}, Payload: first}.Encode(), emptyFin),
+			}
+			for _, head := range heads {
+				for _, ctl := range contCtls {
+					n++
+					data := cat(ctl, head, after)
+					if _, err := execFrames(data); err != nil {
+						hx.Failf(t, map[string]interface{}{"first_message": fmt.Sprintf("%d x 'a' + %x", size, part), "then_hex": fmt.Sprintf("%x", after), "ctl_hex": fmt.Sprintf("%x", ctl)},
+							"%v\nentry=%s (continue after message-level errors)", err, frameEntries[int(ctl[0])%len(frameEntries)])
+						return n
+					}
+				}
+			}
+		}
+	}
 	return n
 }
